@@ -1123,11 +1123,21 @@ int module_load(
     if (block_data == NULL)
       continue;
 
-    ELF* elf = (ELF*) yr_calloc(1, sizeof(ELF));
-    if (elf == NULL)
-      return ERROR_INSUFFICIENT_MEMORY;
+    // The ELF structure is filled in only by the block that is parsed (which
+    // ends the loop), so the one allocated for a previous block is reused
+    // instead of being overwritten and leaked.
+    ELF* elf = (ELF*) module_object->data;
 
-    module_object->data = elf;
+    if (elf == NULL)
+    {
+      elf = (ELF*) yr_calloc(1, sizeof(ELF));
+
+      if (elf == NULL)
+        return ERROR_INSUFFICIENT_MEMORY;
+
+      module_object->data = elf;
+    }
+
     int class_data = get_elf_class_data(block_data, block->size);
 
     if (class_data == CLASS_DATA(ELF_CLASS_32, ELF_DATA_2LSB) &&
